@@ -179,6 +179,14 @@ CHECKS = {
             "Trusted: gcc TSan; the harness (harness/yrmt.c). Schedules are sampled; evidence reports the overlapping "
             "phase pairs actually observed.",
             "DESIGN.md section 2, C09"),
+    "C07": ("exploration",
+            "sanitizers + diagnosis-contract monitor over a grammar-position sweep and coverage-guided fuzzing (libFuzzer)",
+            "Every token-level truncation/deletion/duplication/swap of ~40 seed rules that together use every grammar "
+            "production, plus size stressors, is compiled under ASan+UBSan+LSan with the contract 'non-zero error count "
+            "<=> error callback with message and line' checked per input and a sentinel compile+scan per batch; libFuzzer "
+            "(clang) explores further with the same contract asserted in the driver.",
+            "Trusted: harness and driver; the first 50 messages per compilation are inspected.",
+            "DESIGN.md section 2, C07"),
 }
 
 NOT_YET = "check not built yet in this round (planned in DESIGN.md section 2); nothing is claimed for it"
